@@ -18,6 +18,14 @@ def showOut : Out → String
 
 def hexes (ws : List String) : Option (List Bytes) := ws.mapM parseHex
 
+/-- `UnmarshalJSON(text)`: the model's JSON decoder is applied to the text here; texts outside the modelled
+    codec are answered `delegated` in `handle`. -/
+def unjsonOp (h : String) : Option Op :=
+  (parseHex h).bind (fun t => match PB.Base64.jsonDec t with
+    | .ok raw => some (.unmarshalJSON (some raw))
+    | .err => some (.unmarshalJSON none)
+    | .delegated => none)
+
 def parseOp : List String → Option Op
   | ["append", h] => (parseHex h).map .append
   | ["prepend", h] => (parseHex h).map .prepend
@@ -47,6 +55,18 @@ def parseOp : List String → Option Op
   | ["n64"] => some .getNextN64
   | ["holds"] => some .holdsData
   | ["len"] => some .length
+  | ["json"] => some .marshalJSON
+  -- c.Append(varint.Pack8/16/32(n)) / c.Prepend(…): slices produced by the narrow encoders
+  | ["appendpack8", n] => n.toNat?.map (fun n => .append (PB.Varint.pack8 n))
+  | ["appendpack16", n] => n.toNat?.map (fun n => .append (PB.Varint.pack16 n))
+  | ["appendpack32", n] => n.toNat?.map (fun n => .append (PB.Varint.pack32 n))
+  | ["prependpack8", n] => n.toNat?.map (fun n => .prepend (PB.Varint.pack8 n))
+  | ["prependpack16", n] => n.toNat?.map (fun n => .prepend (PB.Varint.pack16 n))
+  | ["prependpack32", n] => n.toNat?.map (fun n => .prepend (PB.Varint.pack32 n))
+  | ["jsonm"] => some .marshalJSON          -- the same method reached through json.Marshal(c)
+  | ["unjsonm", h] => unjsonOp h            -- … through json.Unmarshal(text, c)
+  | ["unjson", h] => unjsonOp h
+  | ["writeto", n] => n.toNat?.map .writeAllTo
   | _ => none
 
 structure St where
@@ -56,29 +76,42 @@ structure St where
       PeekContainer), as they were at the time of the split: a split container is a snapshot -/
   kept : Option Bytes := none
 
+def generic (s : St) (ws : List String) : St × String :=
+  match s.c, parseOp ws with
+  | some c, some op =>
+    let r := step c op
+    let r' := PB.ByteQueue.step s.q op
+    let kept := match op, r.2 with
+      | .getAsContainer _, .bytes b => some b
+      | .getNextBlockAsContainer, .bytes b => some b
+      | .peekContainer _, .bytes b => some b
+      | _, _ => s.kept
+    if r.2 = r'.2 then ({ c := some r.1, q := r'.1, kept := kept }, showOut r.2)
+    else ({ c := some r.1, q := r'.1, kept := kept }, s!"SPECDIFF model={showOut r.2} spec={showOut r'.2}")
+  | _, _ => (s, "bad-op")
+
 def handle (s : St) (line : String) : St × String :=
   match PB.Drv.words line with
   | "new" :: hs => match hexes hs with
     | some ds => ({ c := some (new ds), q := ds.flatten, kept := none }, "ok")
     | none => (s, "bad-op")
+  | "newc" :: hs => match hexes hs with
+    | some ds => ({ c := some (newContainer ds), q := ds.flatten, kept := none }, "ok")
+    | none => (s, "bad-op")
+  | [u, h] =>
+    if u = "unjson" ∨ u = "unjsonm" then
+    -- a JSON text outside the modelled codec (white space, escapes, arrays, …): not decided by the model
+    match parseHex h with
+    | some t => if PB.Base64.jsonDec t = .delegated then (s, "delegated") else generic s ["unjson", h]
+    | none => (s, "bad-op")
+    else generic s [u, h]
   | ["dump"] => match s.c with
     | some c => (s, if c.bytes = s.q then s!"b {toHex c.bytes}" else s!"SPECDIFF dump model={toHex c.bytes} spec={toHex s.q}")
     | none => (s, "bad-op")
   | ["kdump"] => match s.kept with
     | some b => (s, s!"b {toHex b}")
     | none => (s, "nil")
-  | ws => match s.c, parseOp ws with
-    | some c, some op =>
-      let r := step c op
-      let r' := PB.ByteQueue.step s.q op
-      let kept := match op, r.2 with
-        | .getAsContainer _, .bytes b => some b
-        | .getNextBlockAsContainer, .bytes b => some b
-        | .peekContainer _, .bytes b => some b
-        | _, _ => s.kept
-      if r.2 = r'.2 then ({ c := some r.1, q := r'.1, kept := kept }, showOut r.2)
-      else ({ c := some r.1, q := r'.1, kept := kept }, s!"SPECDIFF model={showOut r.2} spec={showOut r'.2}")
-    | _, _ => (s, "bad-op")
+  | ws => generic s ws
 
 end PB.Drv.C16
 
